@@ -16,6 +16,9 @@ import (
 	"encoding/json"
 	"fmt"
 	"math/rand"
+	"net"
+	"net/http"
+	"net/url"
 	"sort"
 	"strings"
 	"time"
@@ -251,9 +254,9 @@ func genRegHistory(rng *rand.Rand) regHistory {
 		switch x := rng.Intn(100); {
 		case x < 45:
 			push(xH(opHandshake))
-		case x < 70:
+		case x < 75:
 			push(xH(opHandKeep))
-		case x < 85:
+		case x < 92:
 			push(xH(opReinit))
 		default:
 			push(xH(opHandClient))
@@ -360,20 +363,43 @@ type hsAnswer struct {
 	raw      interface{}
 }
 
+// newResetPeer is an HTTP peer whose connections are closed with a reset instead of FIN (SO_LINGER 0).
+func newResetPeer() *peer.HTTPPeer {
+	p := peer.NewHTTPPeer()
+	if tr, ok := p.Client.Transport.(*http.Transport); ok {
+		d := &net.Dialer{Timeout: 10 * time.Second}
+		tr.DialContext = func(ctx context.Context, network, addr string) (net.Conn, error) {
+			c, err := d.DialContext(ctx, network, addr)
+			if tc, ok := c.(*net.TCPConn); ok && err == nil {
+				_ = tc.SetLinger(0)
+			}
+			return c, err
+		}
+	}
+	return p
+}
+
 // runRegHistory executes one history on a fresh server and judges every handshake.
 func runRegHistory(ctx context.Context, r *vh.Run, kind kit.Kind, h regHistory, st *regStats, sampleIt bool) {
 	in := kit.Start(kind, kit.Opts{})
 	var open []*kit.RawConn
-	// One HTTP peer (one keep-alive connection) carries the POSTs of all raw sessions of a history: a session is
-	// a matter of the session id / the event stream, not of the TCP connection, and thousands of histories with a
-	// connection per handshake would leave the loopback ports of a shared machine in TIME_WAIT.
+	// One HTTP peer carries all raw sessions of a history (the POSTs share a keep-alive connection, a legacy SSE
+	// session adds its event stream): a session is a matter of the session id / the event stream, not of the TCP
+	// connection. Thousands of histories with a connection per handshake, each closed from the client's side, would
+	// leave the loopback ports of a shared machine in TIME_WAIT (no port left to listen on); the peer's connections
+	// are therefore closed with a reset (SO_LINGER 0), which leaves no TIME_WAIT behind, after the server is stopped.
 	var shared *peer.HTTPPeer
+	streams := map[*kit.RawConn]*peer.Stream{}
 	if kind != kit.Stdio {
-		shared = peer.NewHTTPPeer()
+		shared = newResetPeer()
 	}
 	closeConn := func(c *kit.RawConn) {
 		if shared != nil {
 			c.HP = nil // the shared peer outlives the session
+		}
+		if s := streams[c]; s != nil {
+			s.Close()
+			delete(streams, c)
 		}
 		c.Close()
 	}
@@ -381,11 +407,53 @@ func runRegHistory(ctx context.Context, r *vh.Run, kind kit.Kind, h regHistory, 
 		for _, c := range open {
 			closeConn(c)
 		}
+		in.Close()
 		if shared != nil {
 			shared.Close()
 		}
-		in.Close()
 	}()
+	// dial opens a raw session on the shared peer.
+	dial := func() (*kit.RawConn, error) {
+		switch kind {
+		case kit.Stdio:
+			return in.Dial(ctx)
+		case kit.LSSE:
+			c := &kit.RawConn{In: in, HP: shared, Headers: map[string]string{}, Log: kit.NewFrameLog()}
+			s, re := shared.OpenStream(ctx, "GET", in.URL(), map[string]string{"Accept": "text/event-stream"}, 8192)
+			if s == nil {
+				return nil, fmt.Errorf("legacy SSE connect: status=%d err=%s", re.Status, re.Err)
+			}
+			select {
+			case ev, ok := <-s.Events:
+				if !ok || ev.Event != "endpoint" {
+					s.Close()
+					return nil, fmt.Errorf("legacy SSE: first event is %q (%q), want endpoint", ev.Event, ev.Data)
+				}
+				u, err := url.Parse(ev.Data)
+				if err != nil {
+					s.Close()
+					return nil, err
+				}
+				base, _ := url.Parse(in.BaseURL())
+				c.MsgURL = base.ResolveReference(u).String()
+				c.SessionID = u.Query().Get("sessionId")
+			case <-time.After(15 * time.Second):
+				s.Close()
+				return nil, fmt.Errorf("legacy SSE: no endpoint event within the watchdog")
+			}
+			lg := c.Log
+			go func() {
+				for ev := range s.Events {
+					lg.Add(ev.Event, ev.Data, ev.ID)
+				}
+				lg.CloseLog()
+			}()
+			streams[c] = s
+			return c, nil
+		default:
+			return &kit.RawConn{In: in, HP: shared, Headers: map[string]string{}, Log: kit.NewFrameLog()}, nil
+		}
+	}
 	st.histories++
 	m := newRegModel()
 	since := sinceLast{first: true}
@@ -439,15 +507,9 @@ func runRegHistory(ctx context.Context, r *vh.Run, kind kit.Kind, h regHistory, 
 		}
 		switch flavour {
 		case opHandshake, opHandKeep:
-			c, err := in.Dial(ctx)
+			c, err := dial()
 			if err != nil {
 				return hsAnswer{skip: "dial: " + err.Error()}, flavour
-			}
-			if shared != nil {
-				if c.HP != nil {
-					c.HP.Close()
-				}
-				c.HP = shared
 			}
 			a := initOn(c, true)
 			if flavour == opHandKeep {
